@@ -108,32 +108,31 @@ impl SocketWorker {
         statistics: CachePaddedArc<IpVersionStatistics<SocketWorkerStatistics>>,
         statistics_sender: Sender<StatisticsMessage>,
         validator: ConnectionValidator,
-        mut priv_droppers: Vec<PrivilegeDropper>,
+        priv_dropper: PrivilegeDropper,
     ) -> anyhow::Result<()> {
         let ring_entries = config.network.ring_size.next_power_of_two();
         // Try to fill up the ring with send requests
         let send_buffer_entries = ring_entries;
 
         let opt_socket_ipv4 = if config.network.use_ipv4 {
-            let priv_dropper = priv_droppers.pop().expect("not enough priv droppers");
-
             Some(
-                create_socket(&config, priv_dropper, config.network.address_ipv4.into())
+                create_socket(&config, config.network.address_ipv4.into())
                     .context("create ipv4 socket")?,
             )
         } else {
             None
         };
         let opt_socket_ipv6 = if config.network.use_ipv6 {
-            let priv_dropper = priv_droppers.pop().expect("not enough priv droppers");
-
             Some(
-                create_socket(&config, priv_dropper, config.network.address_ipv6.into())
+                create_socket(&config, config.network.address_ipv6.into())
                     .context("create ipv6 socket")?,
             )
         } else {
             None
         };
+
+        // Wait for the other workers only once all sockets of this worker are bound
+        priv_dropper.after_socket_creation()?;
 
         let access_list_cache = create_access_list_cache(&shared_state.access_list);
 
@@ -550,7 +549,6 @@ impl SocketWorker {
 
 fn create_socket(
     config: &Config,
-    priv_dropper: PrivilegeDropper,
     address: SocketAddr,
 ) -> anyhow::Result<::std::net::UdpSocket> {
     let socket = if address.is_ipv4() {
@@ -590,8 +588,6 @@ fn create_socket(
     socket
         .bind(&address.into())
         .with_context(|| format!("socket: bind to {}", address))?;
-
-    priv_dropper.after_socket_creation()?;
 
     Ok(socket.into())
 }
